@@ -158,6 +158,22 @@ def sweep(ctx, n):
                 bad("copy-kwargs-leak-into-original", f"copy keyword overrides leaked into the original (color {o.style.color!r}, opacity {o.style.opacity!r})", {"class": cls})
             if c.style.color != "blue":
                 bad("copy-kwargs-not-applied", "copy keyword arguments not applied to the copy", {"class": cls})
+        # lazily un-initialised styles holding mutable values (custom 3d traces): nothing may be shared after copy()
+        for cls in CLASSES[:5]:
+            nps = np.random.default_rng(rng.randrange(2**31))
+            from oracles.sources import params as _params
+            ctor = getattr(magpy.magnet, cls, None) or getattr(magpy.current, cls, None) or getattr(magpy.misc, cls)
+            trace = magpy.graphics.Trace3d(backend="generic", constructor="Scatter3d", kwargs={"x": [0, 1], "y": [0, 1], "z": [0, 1]}, show=True)
+            o = ctor(**_params(cls, nps), style_model3d_data=[trace], style_label="withtrace")
+            parent = magpy.Collection(o) if rng.random() < 0.5 else None
+            c = o.copy()
+            done += 1
+            ro, rc = reach(o, stop_at=(parent,)), reach(c)
+            shared = [type(ro[k]).__name__ for k in ro.keys() & rc.keys()]
+            c.style.model3d.data[0].show = False
+            c.style.model3d.data[0].kwargs["x"] = [5, 6]
+            if shared or o.style.model3d.data[0].show is not True or o.style.model3d.data[0].kwargs["x"] != [0, 1]:
+                bad("copy-shares-state:lazy-style-values", f"copy of an object with an un-initialised style shares mutable style values with it ({shared[:3]})", {"class": cls})
         # empty label
         s = magpy.Sensor(style_label="")
         try:
